@@ -46,6 +46,38 @@ def parseIntLit : Bytes → Option Int
 def intInRange (bits : Nat) (i : Int) : Bool := -(2 ^ (bits - 1) : Int) ≤ i && i < (2 ^ (bits - 1) : Int)
 def natInRange (bits : Nat) (n : Nat) : Bool := n < 2 ^ bits
 
+/-! ### base64 (the way back of `b64`) -/
+
+/-- value of a base64 character (StdEncoding alphabet) -/
+def b64v (c : UInt8) : Option Nat :=
+  if c ≥ 65 && c ≤ 90 then some (c.toNat - 65)
+  else if c ≥ 97 && c ≤ 122 then some (c.toNat - 97 + 26)
+  else if c ≥ 48 && c ≤ 57 then some (c.toNat - 48 + 52)
+  else if c == 43 then some 62
+  else if c == 47 then some 63
+  else none
+
+/-- base64 decoding (StdEncoding, padded), strict -/
+def b64dec : Bytes → Option Bytes
+  | [] => some []
+  | [a, b, 61, 61] =>
+    match b64v a, b64v b with
+    | some x, some y => some [UInt8.ofNat ((x * 64 + y) / 16)]
+    | _, _ => none
+  | [a, b, c, 61] =>
+    match b64v a, b64v b, b64v c with
+    | some x, some y, some z =>
+      let n := (x * 64 + y) * 64 + z
+      some [UInt8.ofNat (n / 1024), UInt8.ofNat (n / 4 % 256)]
+    | _, _, _ => none
+  | a :: b :: c :: d :: r =>
+    match b64v a, b64v b, b64v c, b64v d, b64dec r with
+    | some x, some y, some z, some w, some t =>
+      let n := ((x * 64 + y) * 64 + z) * 64 + w
+      some (UInt8.ofNat (n / 65536) :: UInt8.ofNat (n / 256 % 256) :: UInt8.ofNat (n % 256) :: t)
+    | _, _, _, _, _ => none
+  | _ => none
+
 /-! ### decodeBack -/
 
 inductive DErr where
@@ -115,6 +147,9 @@ def decV : GoType → JVal → Except DErr GoVal
   | .int _, .null => .ok (.int 0)
   | .uint _, .null => .ok (.uint 0)
   | .str, .null => .ok (.str [])
+  | .bytes, .null => .ok .nil
+  | .bytes, .arr [] => .ok (.bytes [])
+  | .bytes, .str b => (match (unq b).bind b64dec with | some x => .ok (.bytes x) | none => .error .mismatch)
   | .bytes, _ | .raw, _ | .any, _ | .lib _, _ => .error .na
   | _, _ => .error .mismatch
 def decL (t : GoType) : List JVal → Except DErr (List GoVal)
